@@ -214,21 +214,19 @@ class TriangularLinearOperator(LinearOperator, _TriangularLinearOperatorBase):
             right_tensor = right_tensor.unsqueeze(-1)
             squeeze = True
 
-        if isinstance(self._tensor, DenseLinearOperator):
-            res = torch.linalg.solve_triangular(self.to_dense(), right_tensor, upper=self.upper)
-        elif isinstance(self._tensor, BatchRepeatLinearOperator):
-            res = self._tensor.base_linear_op.solve(right_tensor, left_tensor)
-            # TODO: Proper broadcasting
-            res = res.expand(self._tensor.batch_repeat + res.shape[-2:])
+        if isinstance(self._tensor, BatchRepeatLinearOperator):
+            # solve once with the un-repeated base, then broadcast; the left factor is applied below, once
+            res = self._tensor.base_linear_op.solve(right_tensor)
+            batch_shape = torch.broadcast_shapes(self.batch_shape, res.shape[:-2])
+            res = res.expand(*batch_shape, *res.shape[-2:])
         else:
-            # TODO: Can we be smarter here?
-            res = self._tensor.solve(right_tensor=right_tensor, left_tensor=left_tensor)
-
-        if squeeze:
-            res = res.squeeze(-1)
+            # `self._tensor.solve` would treat the (triangular, non-symmetric) matrix as positive definite
+            res = torch.linalg.solve_triangular(self.to_dense(), right_tensor, upper=self.upper)
 
         if left_tensor is not None:
             res = left_tensor @ res
+        if squeeze:
+            res = res.squeeze(-1)
         return res
 
     def solve_triangular(
